@@ -31,7 +31,9 @@ def generate(repo):
     if not fn: raise Refuse('util.py: normalize_power not found')
     fn = fn[0]
     params = [a.arg for a in fn.args.args]
-    if params != ['array', 'power'] or [_u(d) for d in fn.args.defaults] != ['1']: raise Refuse(f'normalize_power: signature changed: {params}')
+    dfl = [_u(d) for d in fn.args.defaults]
+    # the default target power is EMITTED (npDefaultPower, wave 12) — it must be an integer literal; C05.normalize_power_default_power is about it
+    if params != ['array', 'power'] or len(dfl) != 1 or not dfl[0].lstrip('-').isdigit(): raise Refuse(f'normalize_power: signature changed: {params} {dfl}')
     body = [s for s in fn.body if not (isinstance(s, ast.Expr) and isinstance(s.value, ast.Constant))]
     if len(body) != 2 or _u(body[0]) != 'array = np.asarray(array)' or not isinstance(body[1], ast.Return):
         raise Refuse('normalize_power: expected `array = np.asarray(array)` and one return: ' + ' | '.join(_u(s)[:40] for s in body))
@@ -41,7 +43,8 @@ def generate(repo):
     elif _u(e.right) == 'array': f = e.left
     else: raise Refuse(f'normalize_power: the array is not a factor of the result: {_u(e)[:60]}')
     text = (f'/-- `util.py:normalize_power` (line {fn.lineno}): the result is `array * npFactor`, with `total = np.sum(np.abs(array)**2)` -/\n'
-            f'def npFactor {{R : Type}} [Add R] [Sub R] [Mul R] [Div R] (sqrt : R → R) (ofInt : Int → R) (power total : R) : R :=\n  {_factor(f)}\n')
-    return text, ['normalize_power: default power = 1 pinned; np.asarray not modelled']
+            f'def npFactor {{R : Type}} [Add R] [Sub R] [Mul R] [Div R] (sqrt : R → R) (ofInt : Int → R) (power total : R) : R :=\n  {_factor(f)}\n'
+            f'/-- the default of `power` (a call `normalize_power(array)`) -/\ndef npDefaultPower : Int := {dfl[0]}\n')
+    return text, ['normalize_power: default power emitted (npDefaultPower); np.asarray not modelled']
 
 MODULES = [{'name': 'NormalizePower', 'src': SRC, 'generator': generate, 'props': ['C05'], 'imports': []}]
